@@ -243,6 +243,66 @@ def measure_frame(w, payload, thr, zlib):
     return o
 
 
+def negative_threshold_scenario(version, seed, enc=False, n=4):
+    """After login the connection's options are set to compression enabled / threshold -1 (what a set-compression packet
+    carrying -1 leaves behind); the client then writes n packets and the server sends n: all must be recovered."""
+    from minecraft.networking.packets import serverbound, clientbound
+    prof = Profile(version)
+    rng = random.Random(seed)
+    priv, der = c10.rsa_key(1024)
+    run = Run(seed=seed)
+    info, holder = {'secret': None}, {}
+    to_client = [(('s:%d' % k), bytes(rng.getrandbits(8) for _ in range(rng.choice([0, 1, 40, 300])))) for k in range(n)]
+    cb_id = clientbound.play.PluginMessagePacket.get_id(prof.ctx)
+
+    def factory(idx, sess):
+        sc = TracingScript(run, prof, [])
+        steps = [('expect', 2)]
+        if enc:
+            def after_resp(s):
+                for p in s.parsed:
+                    if p['t'] == 'enc_response':
+                        info['secret'] = c10.rsa_decrypt(priv, p['secret'])
+                        return True
+                return False
+            steps += [('send', prof.enc_request('-', der, b'tokn')), ('wait', after_resp), ('encrypt', lambda s: info['secret'])]
+        steps += [('send', prof.login_success(bytes(range(16)), 'verif')), ('call', lambda s: setattr(s, 'state', 'play')),
+                  ('pause', 'poke'), ('compress', -1)]
+        steps += [('send', P.VI(cb_id) + P.S(ch) + data) for ch, data in to_client]
+        steps += [('pause', 'end'), ('send', prof.play_disconnect('{"text":"x"}'))]
+        sc.steps = steps
+        holder['sc'] = sc
+        return sc
+    run.serve(factory)
+    sent, recvd = [], []
+    sb_id = serverbound.play.PluginMessagePacket.get_id(prof.ctx)
+
+    def scenario(run):
+        c = run.make_connection(allowed_versions={version})
+        c.register_packet_listener(lambda p: recvd.append((p.channel, bytes(p.data))), clientbound.play.PluginMessagePacket)
+        c.connect()
+        run.settle()
+        c.options.compression_threshold = -1
+        c.options.compression_enabled = True
+        holder['sc'].resume('poke')
+        for k in range(n):
+            data = bytes(rng.getrandbits(8) for _ in range(rng.choice([0, 2, 60, 500])))
+            sent.append((sb_id, P.S('c:%d' % k) + data))
+            c.write_packet(serverbound.play.PluginMessagePacket(channel='c:%d' % k, data=data), force=bool(k % 2))
+        run.settle()
+        holder['sc'].resume('end')
+    run.go(scenario)
+    sc = holder['sc']
+    got = [(fr['id'], fr['body']) for fr in sc.de.frames[2 + (1 if enc else 0):]]
+    if run.outcome != 'done' or run.errors:
+        return False, 'execution %s, errors %r' % (run.outcome, run.errors[:1])
+    if sorted(got) != sorted(sent) or sc.de.errors:
+        return False, 'the server recovered %d of %d written packets (deframer errors %r)' % (len([g for g in got if g in sent]), len(sent), sc.de.errors[:1])
+    if recvd != to_client:
+        return False, 'the client delivered %d of %d packets sent in the envelope' % (len([g for g in recvd if g in to_client]), len(to_client))
+    return True, ''
+
+
 def scale_cuts(row, concrete_frames):
     """Map the abstract arrival offsets of a Framing behaviour onto the concrete stream."""
     abs_frames = row['frames']
@@ -416,6 +476,17 @@ def run(chk):
                           'of packet %d of %d: execution %s, errors %r, %d of %d packets recovered in order'
                           % (version, k, len(hist), run_.outcome, run_.errors[:1], sum(1 for a, b in zip(sent_, got_) if a == b), len(sent_)),
                           {'version': version, 'k': k})
+
+    # ---- a negative threshold in force on a live connection (compression enabled, threshold -1: every frame carries the
+    #      data-length field and none is compressed): writer and reader of the same connection must agree on it
+    for j in range(6 if quick else 40):
+        version = rng.choice(versions)
+        ok_, why_ = negative_threshold_scenario(version, chk.seed * 383 + j, enc=bool(j % 2), n=3 + j % 4)
+        chk.traces += 1
+        chk.case(('negative-threshold', j))
+        if not ok_:
+            chk.violation('framing:negative-threshold', 'compression enabled with threshold -1 on a live connection (protocol %d, cipher %s): %s'
+                          % (version, 'on' if j % 2 else 'off', why_), {'version': version})
 
     # ---- write direction
     n_w = 120 if quick else 1500
